@@ -225,7 +225,9 @@ class C03(core.Check):
         "alternating lengths, reverse first) and random ones; the model is run on the whole history (c03.hist). Round 3: histories also "
         "request copy_preserving(inverted=0/1) copies (default and size-preserving chops), evaluate them and then the chop itself "
         "again; every grading case also reads the text of Grading.description and Grading.inverted.description and compares the "
-        "written numbers with the specification (relative 1e-12). Non-trivial = the implementation returned a grading or rejected for a modelled reason; distinct = "
+        "written numbers with the specification (relative 1e-12). Round 4: API variants — counts written as floats (integer-valued "
+        "or not; the library truncates), ratios written as Python ints up to count 200 (2**199 exactly), integer lengths and sizes: "
+        "a fixed list plus a 20 % variant of every random chop. Non-trivial = the implementation returned a grading or rejected for a modelled reason; distinct = "
         "different (length, parameters)."
     )
     assumptions = [
@@ -253,6 +255,7 @@ class C03(core.Check):
         for _ in range(n):
             cases.append(self._gen_chop(rng))
         cases.extend(self._boundary_list())
+        cases.extend(self._variant_list())
         for _ in range(n // 20):
             cases.append(self._gen_boundary(rng))
         for _ in range(n // 10):
@@ -379,7 +382,52 @@ class C03(core.Check):
                 g = {}
             else:
                 g = {which: c}
-        return {"kind": "chop", "L": L, "given": g}
+        return {"kind": "chop", "L": L, "given": self._api_variant(rng, g)}
+
+    @staticmethod
+    def _api_variant(rng: random.Random, g: dict) -> dict:
+        """the same chop written the way users write it: the count as a float (`length / size`, truncated by the library),
+        ratios as Python ints"""
+        if rng.random() > 0.2:
+            return g
+        g = dict(g)
+        if "count" in g and rng.random() < 0.6:
+            g["count"] = float(g["count"]) + rng.choice([0.0, 0.5, 0.9, 0.25, 0.999])
+        for k in ("c2c_expansion", "total_expansion"):
+            if k in g and float(g[k]).is_integer() and rng.random() < 0.8:
+                g[k] = int(g[k])
+        return g
+
+    @staticmethod
+    def _variant_list() -> List[dict]:
+        """round 4: API variants, enumerated — float counts (integer-valued or not), integer ratios up to the largest
+        counts (2**199 is an exact Python int), integer lengths and sizes"""
+        out: List[dict] = []
+        for L in (1.0, 10):
+            for n in (1, 2, 10, 53, 63, 64, 65, 100, 200):
+                out.append({"kind": "chop", "L": L, "given": {"count": n, "c2c_expansion": 2}})
+                out.append({"kind": "chop", "L": L, "given": {"count": n, "c2c_expansion": 1}})
+                out.append({"kind": "chop", "L": L, "given": {"count": n, "total_expansion": 2}})
+                out.append({"kind": "rel", "name": "total_expansion<count+c2c_expansion", "L": L, "a": n, "b": 2})
+                out.append({"kind": "rel", "name": "start_size<count+c2c_expansion", "L": L, "a": n, "b": 2})
+            for c in (7.5, 12.9, 10.0, 1.5, 0.5, 199.99, 64.5):
+                for other in ({"c2c_expansion": 1.1}, {"c2c_expansion": 0.9}, {"c2c_expansion": 2}, {"start_size": 0.05 * L},
+                              {"end_size": 0.05 * L}, {"total_expansion": 2.0}, {}):
+                    if c < 2 and "total_expansion" in other:
+                        continue
+                    out.append({"kind": "chop", "L": L, "given": {"count": c, **other}})
+        out.append({"kind": "chop", "L": 10, "given": {"start_size": 1, "c2c_expansion": 2}})
+        out.append({"kind": "chop", "L": 10, "given": {"start_size": 1, "end_size": 2}})
+        out.append({"kind": "chop", "L": 10, "given": {"end_size": 1, "total_expansion": 2}})
+        out.append({"kind": "chop", "L": 10, "given": {"start_size": 1}})
+        out.append({"kind": "history", "L": 1.0, "given": {"count": 70, "c2c_expansion": 2},
+                    "ops": [["calc", 1.0], ["copy", 1, 1.0], ["calc", 1.0], ["invert"], ["calc", 1.0]]})
+        out.append({"kind": "history", "L": 1.0, "given": {"count": 12.9, "c2c_expansion": 1.2},
+                    "ops": [["calc", 1.0], ["invert"], ["calc", 1.0], ["copy", 0, 1.0]]})
+        out.append({"kind": "grading", "L": 10, "chops": [{"ratio": 1, "given": {"count": 66, "c2c_expansion": 2}}]})
+        out.append({"kind": "grading", "L": 10, "chops": [{"ratio": 0.5, "given": {"count": 7.5, "c2c_expansion": 1.3}},
+                                                           {"ratio": 0.5, "given": {"count": 64, "c2c_expansion": 2}}]})
+        return out
 
     @staticmethod
     def _boundary_list() -> List[dict]:
@@ -728,9 +776,9 @@ class C03(core.Check):
             if k in given and given[k] is not None:
                 v = given[k]
                 if k == "count":
-                    if not isinstance(v, int):
+                    if isinstance(v, bool) or not isinstance(v, (int, float)) or (isinstance(v, float) and not math.isfinite(v)):
                         return None
-                    parts.append(f"count:{v}")
+                    parts.append(f"count:{v}" if isinstance(v, int) else f"count:{_rat(v)}")
                 else:
                     parts.append(f"{k}:{v if isinstance(v, str) else _rat(v)}")
         return ",".join(parts) if parts else "-"
@@ -786,7 +834,7 @@ class C03(core.Check):
         arg = self._chop_arg(given)
         if arg is None or self._too_large(impl["run"]) or ("inv_run" in impl and self._too_large(impl["inv_run"])):
             return reqs
-        if isinstance(given.get("count"), int) and given["count"] > 1500:
+        if isinstance(given.get("count"), (int, float)) and given["count"] > 1500:
             return reqs
         reqs.append(("init", f"c03.init {arg}"))
         orc, tol, info = self._oracle_and_tol(impl["run"])
@@ -830,7 +878,7 @@ class C03(core.Check):
         if "ctor" in impl:
             return []
         arg = self._chop_arg(case["given"])
-        if arg is None or (isinstance(case["given"].get("count"), int) and case["given"]["count"] > 1500):
+        if arg is None or (isinstance(case["given"].get("count"), (int, float)) and case["given"]["count"] > 1500):
             return []
         parts = []
         for st in impl["steps"]:
@@ -1327,8 +1375,8 @@ class C03(core.Check):
         if any(not (0.5 <= r <= 2) for r in ratios):
             return False
         if "count" in g:
-            n = g["count"]
-            if not (1 <= n <= 200):
+            n = max(int(g["count"]), 1)
+            if not (1 <= g["count"] <= 200):
                 return False
             if len(g) == 1 or "c2c_expansion" in g:
                 return True
